@@ -161,9 +161,35 @@ def check_case(case):
     return {"dis": dis, "nontrivial": kind in ("normal", "scaled", "negative"), "class": kind, "checked": ["Endpoints", "Centre", "Extent", "Point", "ReportedEllipse"]}
 
 
-def cases_from_dump(path):
+UNITS = [(1, 1000), (12345, 1), (100000, 1), (37, 100), (1, 64)]
+
+
+def scaled(case, u):
+    """The same arc in another unit of length (F.6 is equivariant under uniform scaling: points and radii scale, the
+    rotation, the flags and the angles stay) - the property quantifies over coordinate magnitudes 1e-3..1e5."""
+    un, ud = u
+
+    def sq(q):
+        return [q[0] * un, q[1] * ud]
+
+    def sp(p):
+        return [sq(p[0]), sq(p[1])]
+    start, rx, ry, ph, fa, fs, end = case["args"]
+    c = {"kind": case["kind"], "args": [sp(start), sq(rx), sq(ry), ph, fa, fs, sp(end)], "exp": case["exp"], "unit": "%d/%d" % u}
+    if case["kind"] in ("normal", "scaled", "negative"):
+        (cen, th0a, exta, dirn), erx, ery = case["exp"]
+        c["exp"] = [[sp(cen), th0a, exta, dirn], sq(erx), sq(ery)]
+    return c
+
+
+def cases_from_dump(path, seed=0):
+    n = 0
     for st in engine.read_dump(path):
-        yield {"kind": st["kind"], "args": st["args"], "exp": st["exp"]}
+        n += 1
+        case = {"kind": st["kind"], "args": st["args"], "exp": st["exp"]}
+        yield case
+        if n % 3 == 0:
+            yield scaled(case, UNITS[(n // 3 + seed) % len(UNITS)])
 
 
 def run(tier, seed):
@@ -175,7 +201,7 @@ def run(tier, seed):
         run.add_tlc(res, "ArcF6 cases, %s" % consts)
         n = 0
         bykind = {}
-        for case, r in engine.replay("harness.c05", cases_from_dump(res["dump"]), chunk=200):
+        for case, r in engine.replay("harness.c05", cases_from_dump(res["dump"], seed), chunk=200):
             run.record(case, r, key=str(case["args"]))
             bykind[case["kind"]] = bykind.get(case["kind"], 0) + 1
             if n % 2000 == 5:
